@@ -1,9 +1,11 @@
 """
-Oracle-only cases for field kinds the Lean serde model does not carry (DecimalNumber, Enum by value incl.
-IntEnum/Flag members that are falsy, date/time fields, formatted strings, SerializableField wrappers,
-_ignore_none classes): real classes are built from a small JSON spec, and the statement of C05 is executed on
-the real code.  These cases have no model counterpart (`line` returns None for them); they widen the
-failing-input search, never the theorems.
+Cases for field kinds outside the core declaration type (DecimalNumber, Enum by value incl. IntEnum/Flag members
+that are falsy, date/time fields, formatted strings, SerializableField wrappers, _ignore_none classes, compact
+wrappers): real classes are built from a small JSON spec, and the statements of C05 / C06 (and C02) are executed on the
+real code.  For the kinds the Lean model of the extension kinds carries (Sem/SerdeX.lean: DecimalNumber, Enum by value,
+DateField/DateTime and the core scalars, bare and inside Optional/Array/Deque/Set/Map/Tuple/nested class) a model line
+is produced as well (suite serdex: `xline`, `xcorrespond`); the other cases are oracle-only (`line` is None): they
+widen the failing-input search, never the theorems.
 """
 import datetime
 import decimal
